@@ -100,8 +100,7 @@ Definition cell_key (n : Z) (x : cell) : Z := match x with Own s => keyf n s | P
 Definition sorted_by (c : coll) (n : Z) (rev : bool) : outcome coll :=
   match lookup n (arrays c) with
   | None => Refused                                  (* ValueError: array does not exist *)
-  | Some r => if len c =? 0 then Crashed             (* F-06c: IndexError on an empty collection *)
-              else select c (argsort rev (map (cell_key n) r))
+  | Some r => select c (argsort rev (map (cell_key n) r))       (* an empty collection sorts to an empty copy (after the repair of F-06c1) *)
   end.
 
 (* ---- filter / classify: index lists built from the structures ---- *)
